@@ -649,7 +649,9 @@ class Exec:
                 if not z3.is_bv_value(n): raise CannotEncode('malloc of symbolic size')
                 mem.nheap += 1
                 name = f'heap{mem.nheap}'
-                mem.new(name, n.as_long(), kind='heap', init=z3.Array('m_' + name + '_' + str(len(s.paths)) + '_' + str(id(mem) & 0xffff), z3.BitVecSort(64), z3.BitVecSort(8)))
+                # contents of fresh memory: a fixed unknown per allocation ordinal (the k-th malloc of any run sees the same garbage),
+                # so that two runs performing the same allocations are comparable
+                mem.new(name, n.as_long(), kind='heap', init=z3.Array('m_fresh_' + name + '_' + str(n.as_long()), z3.BitVecSort(64), z3.BitVecSort(8)))
                 env[ins.dst] = Ptr(name, bv(0, 64)); return
             if callee == '@free':
                 p = av[0]
